@@ -800,7 +800,7 @@ Qed.
 (** ---- the exact error at the node, one lemma per kind ---- *)
 Lemma exact_unknown_ref f s ns wh st d :
   is_prim s = false -> jhas (qualify ns s) (st_tbl st) = false ->
-  parse_rec (S f) (JStr s) ns wh st d = PErrUnknown (qualify ns s).
+  parse_rec (S f) (JStr s) ns wh st d = PErrUnknown (qualify ns s) (st_tbl st).
 Proof. intros P J. cbn [parse_rec parse_node]. now rewrite P, J. Qed.
 
 Lemma exact_decimal f kv ty ns wh st d :
